@@ -110,6 +110,9 @@ func (fc *FnCtx) queryTextMode(q *Query, light bool) string {
 	if strings.Contains(bs+spec, "(hexs ") {
 		out.WriteString(hexDecl)
 	}
+	if strings.Contains(bs+spec, "(rematchdyn ") {
+		out.WriteString("(declare-fun rematchdyn (Str Str) Bool)\n")
+	}
 	if strings.Contains(bs+spec, "(fsread ") {
 		out.WriteString("(declare-fun fsread (Str Int) Str)\n")
 	}
